@@ -207,6 +207,9 @@ func runProperty(repo, verif, prop string, cfg *PropCfg, tier string, overlay ma
 		}
 		fc := e.VerifyFunc(k, false)
 		fcs = append(fcs, fc)
+		if len(c.Guarantee) > 0 {
+			fcs = append(fcs, e.VerifyGuarantee(k))
+		}
 	}
 	for _, l := range e.Spec.Lemmas {
 		if !hasProp(l.Props) {
